@@ -172,4 +172,174 @@ example (k : Nat) (kind : StreamKind) (isLazy : Bool) (rp : LoadRes)
     exNotes (by decide) (by decide +kernel) (by decide +kernel) idx
   exact ⟨o1, n, out, g1, g2, g3⟩
 
+/-! ### 2. symbol lookup by value on a truncated file -/
+
+/-- `sections[j]->get_data()` for an arbitrary index on a loaded prefix -/
+theorem settleOpt_prefix (img : Bytes) (k : Nat) (o : Obj) (hP : PrefixLoadedC img k o) (j : Nat) :
+    PrefixLoadedC img k (TQ.settleOpt o j).1 ∧
+    (j < eh img "e_shnum" → ∃ s, (TQ.settleOpt o j).2 = some s ∧ PReady img j s ∧ LoadedSec [] s (img.take k)) ∧
+    (eh img "e_shnum" ≤ j → (TQ.settleOpt o j).2 = none) := by
+  unfold TQ.settleOpt
+  by_cases hj : j < eh img "e_shnum"
+  · obtain ⟨o1, b1, h1, hP1, hR, hLS, _, _⟩ := prefix_secResident_c img k o hP j hj
+    have hs : TQ.settle o j = some (o1, b1) := h1
+    rw [hs]
+    exact ⟨hP1, fun _ => ⟨b1, rfl, hR, hLS⟩, fun h => absurd hj (by omega)⟩
+  · have hs : TQ.settle o j = none := prefix_secResident_none img k o hP j (Nat.le_of_not_lt hj)
+    rw [hs]
+    exact ⟨hP, fun h => absurd h hj, fun _ => rfl⟩
+
+/-- `symbol_section_accessor(elf, sections[i])` on a loaded prefix: the state is kept; the symbol section is without
+    data or as good as the complete file's; when it has data, the linked string table is absent exactly when the
+    complete file has none, and otherwise is without data or reads as the complete file's linked table -/
+theorem symTabFor_prefix (img : Bytes) (k : Nat) (o : Obj) (hP : PrefixLoadedC img k o) (i : Nat)
+    (hi : i < eh img "e_shnum") :
+    ∃ o2 t, TQ.symTabFor o i = some (o2, t) ∧ PrefixLoadedC img k o2 ∧ t.cfg = ⟨clsOf img, encOf img⟩ ∧
+      PReady img i t.sym ∧ LoadedSec [] t.sym (img.take k) ∧
+      (t.sym.data ≠ none → (t.str = none → linkedBytes img i = []) ∧
+        ∀ s, t.str = some s → secData s = none ∨ ReadsAs s (linkedBytes img i)) := by
+  obtain ⟨o1, b1, h1, hP1, hR, hLS, _, _⟩ := prefix_secResident_c img k o hP i hi
+  have hs : TQ.settle o i = some (o1, b1) := h1
+  obtain ⟨hP2, r2a, r2b⟩ := settleOpt_prefix img k o1 hP1 (tq_sym_strtab_index b1.link).toNat
+  unfold TQ.symTabFor
+  simp only [hs]
+  refine ⟨_, _, rfl, ?_, ?_, hR, hLS, ?_⟩
+  · split
+    · exact (settleOpt_prefix img k _ hP2 _).1
+    · exact hP2
+  · show (⟨o.cls, o.enc⟩ : Cfg) = _
+    rw [hP.base.cls, hP.base.enc]
+  · intro hdn
+    have hdn' : b1.data ≠ none := hdn
+    have hF : Fields img i b1 := by
+      rcases hR.data with hd | ⟨hF, _⟩
+      · exact absurd hd hdn'
+      · exact hF
+    have hidx : (tq_sym_strtab_index b1.link).toNat = linkIdx img i := by
+      unfold tq_sym_strtab_index linkIdx
+      rw [← hF.link]
+      simp only [BitVec.toNat_setWidth, Nat.reducePow]
+    rw [hidx] at r2a r2b
+    show ((TQ.settleOpt o1 (tq_sym_strtab_index b1.link).toNat).2 = none → _) ∧
+      ∀ s, (TQ.settleOpt o1 (tq_sym_strtab_index b1.link).toNat).2 = some s → _
+    rw [hidx]
+    by_cases hl : linkIdx img i < eh img "e_shnum"
+    · obtain ⟨s, e, hR2, _⟩ := r2a hl
+      refine ⟨fun h => (by rw [e] at h; cases h), ?_⟩
+      intro s' hs'
+      rw [e] at hs'; cases hs'
+      rcases hR2.data with hd | ⟨_, _, hv, hn, _⟩
+      · left; unfold secData; rw [getData_of_settled hR2.settled, hd]
+      · cases hd : s.data with
+        | none => left; unfold secData; rw [getData_of_settled hR2.settled, hd]
+        | some d =>
+          right
+          have := readsAs_pready hR2.settled hv hn d hd
+          simpa only [linkedBytes, hl, if_true] using this
+    · refine ⟨fun _ => by simp only [linkedBytes, hl, if_false], ?_⟩
+      intro s hs'
+      rw [r2b (Nat.le_of_not_lt hl)] at hs'; cases hs'
+
+/-- the by-value search on a symbol section without data finds nothing -/
+theorem getByValue_nodata (t : SymTab) (h : secData t.sym = none) (v : BitVec 64) (str : Bytes) (a : Attrs) :
+    t.getByValue v str a = .ok (false, str, a) := by
+  obtain ⟨n, hn, _⟩ := Inspect.sym_num_total t
+  have hgo : t.searchGo v n.toNat 0 = .ok none := by
+    cases n.toNat with
+    | zero => rfl
+    | succ m =>
+      unfold SymTab.searchGo
+      rw [SymTie.symPtrValue_unfold]
+      simp only [h, SymTab.guardNum, Option.isNone_none, if_true, bind, Except.bind, pure, Except.pure,
+        sym32_ptr_guard, sym64_ptr_guard, Bool.not_true, Bool.false_and, ite_self, Bool.false_eq_true, if_false]
+  unfold SymTab.getByValue
+  rw [hn]
+  simp only [bind, Except.bind]
+  rw [hgo]
+  rfl
+
+theorem searchGo_str_none (t : SymTab) (v : BitVec 64) :
+    ∀ (n : Nat) (i : BitVec 64), ({ t with str := none } : SymTab).searchGo v n i = t.searchGo v n i := by
+  intro n
+  induction n with
+  | zero => intro i; rfl
+  | succ m ih =>
+    intro i
+    have e : ({ t with str := none } : SymTab).symPtrValue i = t.symPtrValue i := rfl
+    simp only [SymTab.searchGo, e, ih]
+
+/-- a linked string section without data answers the by-value search like no string section at all -/
+theorem getByValue_str_nodata (t : SymTab) (s : SecBuf) (ht : t.str = some s) (h : secData s = none)
+    (v : BitVec 64) (str : Bytes) (a : Attrs) :
+    t.getByValue v str a = ({ t with str := none } : SymTab).getByValue v str a := by
+  have e : ({ t with str := none } : SymTab).symbolsNum = t.symbolsNum := rfl
+  unfold SymTab.getByValue
+  rw [e]
+  simp only [searchGo_str_none, getSymbol_str_nodata t s ht h]
+
+/-- **prefix_byvalue_sound** (C17 for `symbol_section_accessor::get_symbol(value, …)`): on a prefix of a well-formed
+    image that loads, for a symbol table `i` with the class's entry size, the by-value lookup is for EVERY 64-bit
+    `value` refused (false, out-parameters untouched), or it answers true/false exactly as on the complete file
+    (`specByValue img i v` = what `byvalue_reports_spec` says the complete file's load reports = the gABI's first
+    record with that `st_value`), with the complete file's attributes and with the complete file's name or — when the
+    linked string table's data is not in the prefix — the empty name. -/
+theorem prefix_byvalue_sound (img : Bytes) (k : Nat) (o : Obj) (hP : PrefixLoadedC img k o) (i : Nat)
+    (hi : i < eh img "e_shnum") (hent : sh img i "sh_entsize" = Spec.symSize (clsOf img)) (v : BitVec 64) :
+    ∃ o2 out, TQ.runQuery o (.symByValue i v) = .ok (o2, .byValue out) ∧ PrefixLoadedC img k o2 ∧
+      (out = (false, [], {}) ∨
+       (out.1 = (specByValue img i v).1 ∧ out.2.2 = (specByValue img i v).2.2 ∧
+         (out.2.1 = [] ∨ out.2.1 = (specByValue img i v).2.1))) := by
+  obtain ⟨o2, t, h1, hP2, hcfg, hR, hLS, hstr⟩ := symTabFor_prefix img k o hP i hi
+  have hout : ∀ r : Bool × Bytes × Attrs, t.getByValue v [] {} = .ok r →
+      TQ.runQuery o (.symByValue i v) = .ok (o2, .byValue r) := by
+    intro r hr
+    simp only [TQ.runQuery, h1, TQ.getByValue, hr, TQ.liftQ]; rfl
+  cases hd : t.sym.data with
+  | none =>
+    have hg := getByValue_nodata t (by unfold secData; rw [getData_of_settled hR.settled]; exact hd) v [] {}
+    exact ⟨o2, _, hout _ hg, hP2, Or.inl rfl⟩
+  | some d =>
+    have hdn : t.sym.data ≠ none := by rw [hd]; exact fun h => by cases h
+    obtain ⟨hstr0, hstr1⟩ := hstr hdn
+    rcases hR.data with hd' | ⟨hF, hocc, hv, hn, hss⟩
+    · exact absurd hd' hdn
+    · have hRA := readsAs_pready hR.settled hv hn d hd
+      have hent' : t.sym.entSize = BitVec.ofNat 64 (SymTab.symSizeOf t.cfg.cls) := by
+        rw [hcfg]
+        exact ofNat_toNat64 _ _ (by rw [hF.entSize, hent, SymTab.symSizeOf_eq])
+      have hcases : ∃ strB, (strB = linkedBytes img i ∨ strB = []) ∧
+          ∃ t' : SymTab, t'.cfg = ⟨clsOf img, encOf img⟩ ∧ SymTab.Wf t' (secFileBytes img i) strB ∧
+            t.getByValue v [] {} = t'.getByValue v [] {} := by
+        cases hs : t.str with
+        | none =>
+          exact ⟨linkedBytes img i, Or.inl rfl, t, hcfg, ⟨hent', hss, hRA, by simp only [hs, hstr0 hs]⟩, rfl⟩
+        | some s =>
+          rcases hstr1 s hs with hsn | hsr
+          · exact ⟨[], Or.inr rfl, { t with str := none }, hcfg, ⟨hent', hss, hRA, rfl⟩,
+              getByValue_str_nodata t s hs hsn v [] {}⟩
+          · exact ⟨linkedBytes img i, Or.inl rfl, t, hcfg, ⟨hent', hss, hRA, by simp only [hs]; exact hsr⟩, rfl⟩
+      obtain ⟨strB, hB, t', hcfg', hW, heq⟩ := hcases
+      have hg := C09.lookup_value hW v [] {}
+      rw [hcfg', ← heq] at hg
+      refine ⟨o2, _, hout _ hg, hP2, Or.inr ?_⟩
+      unfold specByValue cfgOf
+      cases Spec.lookupValue (SymTab.valuesOf ⟨clsOf img, encOf img⟩ (secFileBytes img i)) v.toNat with
+      | none => exact ⟨rfl, rfl, Or.inl rfl⟩
+      | some j =>
+        refine ⟨rfl, rfl, ?_⟩
+        rcases hB with rfl | rfl
+        · exact Or.inr rfl
+        · left
+          simp [SymTab.nameAt, Spec.symStrAt]
+
+example (k : Nat) (kind : StreamKind) (isLazy : Bool) (rp : LoadRes)
+    (hp : load {} { data := exImg2.take k, kind := kind } isLazy = .ok rp) (hok : rp.ok = true) (v : BitVec 64) :
+    ∃ o2 out, TQ.runQuery rp.obj (.symByValue 2 v) = .ok (o2, .byValue out) ∧
+      (out = (false, [], {}) ∨
+       (out.1 = (specByValue exImg2 2 v).1 ∧ out.2.2 = (specByValue exImg2 2 v).2.2 ∧
+         (out.2.1 = [] ∨ out.2.1 = (specByValue exImg2 2 v).2.1))) := by
+  obtain ⟨o2, out, h, _, h'⟩ := prefix_byvalue_sound exImg2 k rp.obj
+    (prefixLoadedC_of_load exImg2 exImg2_wf {} rfl k kind isLazy rp hp hok) 2 (by decide +kernel) (by decide +kernel) v
+  exact ⟨o2, out, h, h'⟩
+
 end ElfioVerif.ComposeTables
